@@ -63,7 +63,7 @@ def judge(case, ctx):
 
 
 def draw(rng):
-    cls = rng.choice(["hardpack", "hardpack", "repeat", "repeat", "repeat", "threshold", "random", "planted", "widerange"])
+    cls = rng.choice(["hardpack", "hardpack", "repeat", "repeat", "repeat", "repeat_large", "repeat_large", "threshold", "random", "planted", "widerange"])
     Cs, v = gen.pack_instance(rng, cls, rng.choice([8, 10, 12]))
     v = [max(1, x) for x in v]
     return {"kind": "pack", "alg": "bc", "C": Cs, "values": gen.arrange(rng, v, rng.choice(gen.ORDERS)), "cls": cls, "pres": "list", "pres_seed": 0}
